@@ -308,7 +308,8 @@ func (j *jsonReader) Tag() int {
 		return 0
 	}
 	if strings.HasPrefix(rawTag, "0x") {
-		parsedTag, err := strconv.ParseInt(rawTag[2:], 16, 32)
+		// A tag is a 3 bytes unsigned number
+		parsedTag, err := strconv.ParseUint(rawTag[2:], 16, 24)
 		if err != nil {
 			// TODO: return error
 			return 0
@@ -523,7 +524,7 @@ func (j *jsonReader) DateTime(tag int) (time.Time, error) {
 	switch val := j.getValue().(type) {
 	case string:
 		if strings.HasPrefix(val, "0x") {
-			parsed, err := strconv.ParseUint(val[2:], 10, 64)
+			parsed, err := strconv.ParseUint(val[2:], 16, 64)
 			if err != nil {
 				return time.Time{}, err
 			}
@@ -531,6 +532,10 @@ func (j *jsonReader) DateTime(tag int) (time.Time, error) {
 			epoch := int64(parsed)
 			if epoch < 0 {
 				return time.Time{}, Errorf("date-time cannot be negative")
+			}
+			// The text form of a date-time (RFC 3339) ends with year 9999
+			if epoch > 253402300799 {
+				return time.Time{}, Errorf("date-time is out of range")
 			}
 			return time.Unix(epoch, 0).UTC(), j.Next()
 		}
@@ -555,17 +560,18 @@ func (j *jsonReader) Interval(tag int) (time.Duration, error) {
 		if err != nil {
 			return 0, err
 		}
+		// An interval is a 32 bits unsigned number of seconds
+		if n < 0 || n > math.MaxUint32 {
+			return 0, Errorf("interval is out of bound")
+		}
 		return time.Duration(n) * time.Second, j.Next()
 	case string:
 		parsed, err := parseUint(val, 32)
 		if err != nil {
 			return 0, err
 		}
-		// Check integer bounds
-		if parsed > math.MaxInt64 {
-			return 0, Errorf("integer is out of bound")
-		}
-		return time.Duration(parsed), j.Next()
+		//nolint:gosec // parsed fits in 32 bits
+		return time.Duration(parsed) * time.Second, j.Next()
 	default:
 		return 0, Errorf("Invalid interval value %q", val)
 	}
